@@ -504,6 +504,63 @@ def _scores_model(case, obs):
     return res
 
 
+def _raw_values(case, obs, j, f):
+    """per fold model (in the order brew returned them): its decision value on every row of file j, as exact Fractions"""
+    k = case["folds"]
+    raw = []
+    for m in range(k):
+        if obs.get("seen") and obs["seen"][m]:
+            seen = obs["seen"][m]        # recorded decision values of a black-box learner (oracle)
+            raw.append([Fraction(seen.get(_gid(j, r), 0)) for r in range(len(f["targets"]))])
+            continue
+        name = _feature_name(case, obs, obs["cols"][m])
+        kind = case.get("est_kind", "col")
+        if kind == "const":
+            raw.append([Fraction(0) for _ in f["data"][name]])
+        elif kind == "neg":
+            raw.append([-Fraction(v) for v in f["data"][name]])
+        else:
+            raw.append([Fraction(v) for v in f["data"][name]])
+    return raw
+
+
+def _scores_model_ens(case, obs, delivery="reversed"):
+    """brew(ensemble=True) by the extracted model (Model/Brew.v bw_brew_scores_ens, driver entry c02.brew_scores_ens): per
+    file ("ok", [Fraction]) — the exact mean over ALL fold models of their raw decision values — or ("err", kind).  The
+    fitted models go in as (Model.fold, values) in another order than the one brew returned (the model sorts them by fold).
+    Contract: the values are integers or dyadic rationals (scaled here by their common power-of-two denominator) and small,
+    so the float64 sum of the real code is exact and np.mean returns float(exact sum / k): callers compare
+    Fraction(float(q)) with the returned score bit for bit."""
+    k = case["folds"]
+    c = case.get("chunks", {}).get("predict", 700000)
+    folds = list(obs.get("model_folds") or range(1, k + 1))
+    lines, dens = [], []
+    for j, f in enumerate(case["files"]):
+        raw = _raw_values(case, obs, j, f)
+        den = 1
+        for col in raw:
+            for v in col:
+                if v.denominator > den:
+                    den = v.denominator
+        if den & (den - 1) or any((v * den).denominator != 1 for col in raw for v in col):
+            raise lib.ModelError("ensemble contract: decision values must be dyadic rationals")
+        if k * max([abs(int(v * den)) for col in raw for v in col] or [0]) >= 2 ** 53:
+            raise lib.ModelError("ensemble contract: k * max|value| must stay below 2^53")
+        fitted = [(folds[m], [int(v * den) for v in raw[m]]) for m in range(len(raw))]
+        if delivery == "reversed":
+            fitted = fitted[::-1]
+        dens.append(den)
+        lines.append("c02.brew_scores_ens %s %s %s %s" % (
+            lib.z(c), lib.z(k), lib.lst(obs["ref_keys"][j]),
+            lib.lst(fitted, lambda p: lib.z(p[0]) + " " + lib.lst(p[1]))))
+    res = []
+    for line, den in zip(lib.run_driver(lines), dens):
+        t = Toks(line)
+        r = t.result(lambda: t.lst(t.q))
+        res.append(("ok", [q / den for q in r[1]]) if r[0] == "ok" else r)
+    return res
+
+
 def run_case(case):
     m, i = compare(case, call_impl(run_impl, case))
     if m[0] == "err":
@@ -645,6 +702,9 @@ def compare(case, got):
     # ---- implementation-side canonical view
     impl = {"model_folds": obs["model_folds"], "scored": obs["scored_ids"], "trained": obs["trained"]}
     model = {"model_folds": list(range(1, k + 1)), "scored": m["fold_rows"], "trained": [True] * k}
+    if case.get("ensemble"):
+        # brew(ensemble=True) (callers c04 / c05; Model/Brew.v, R2.22): every fold model scores EVERY row of every file
+        model["scored"] = [sorted(g for rows in m["fold_rows"] for g in rows)] * k
     # training sets
     train_ok = []
     spec = _spectra(case)
@@ -673,7 +733,7 @@ def compare(case, got):
     impl["train"] = train_ok
     model["train"] = ["ok"] * k
     # scores
-    sm = _scores_model(case, obs)
+    sm = _scores_model_ens(case, obs) if case.get("ensemble") else _scores_model(case, obs)
     if any(s[0] == "err" for s in sm):
         kind = [s[1] for s in sm if s[0] == "err"][0]
         model["scores"] = "err:" + ("NonFinite" if kind == "TypeError" else kind)
@@ -730,6 +790,23 @@ def same(c, m, i):
         return all(k in b and a[k] == b[k] for k in a if k != "note") and "note" not in a
     return all(k in b and a[k] == b[k] for k in ("model_folds", "scored", "trained", "train", "scores", "property")) \
         and a.get("rescore") == b.get("rescore")
+
+
+ENS_KEYS = ("model_folds", "scored", "trained", "train", "scores")
+
+
+def same_ens(c, m, i):
+    """ensemble=True: what the extracted model predicts (fold numbers of the returned models, every model scores every row,
+    training sets, the exact averaged scores) — without the held-out property, which is FALSE in this mode (C04_ensemble_leak;
+    the property oracle keeps reporting it)"""
+    if m[0] != i[0]:
+        return False
+    if m[0] == "err":
+        return m[1] == i[1]
+    a, b = m[1], i[1]
+    if "scored" not in a:
+        return all(k in b and a[k] == b[k] for k in a if k != "note") and "note" not in a
+    return all(k in b and a[k] == b[k] for k in ENS_KEYS)
 
 
 def nontrivial(c):
